@@ -171,6 +171,21 @@ def regen_precedence(ctx):
                         tt = src(hp)
                         if "IfExp" in tt and "Lambda" in tt and "self.write('(')" in tt and "self.write(')')" in tt:
                             operand_parens = True
+    # operator forms write their own parentheses on every path
+    from ..engine import cfg as cfgmod
+    for nm in ("visit_BinOp", "visit_BoolOp", "visit_Compare", "visit_UnaryOp"):
+        h = meths.get(nm)
+        if h is None or isinstance(h, ast.Assign):
+            continue
+        g = cfgmod.function_cfg(h)
+        opens = [x for x in g.nodes if x.stmt is not None and isinstance(x.stmt, ast.Expr) and src(x.stmt) == "self.write('(')"]
+        closes = [x for x in g.nodes if x.stmt is not None and isinstance(x.stmt, ast.Expr) and src(x.stmt) == "self.write(')')"]
+        g1, p1 = g.must_pass(g.entry, opens, exits=[g.exit], kinds=("n",))
+        g2, p2 = g.must_pass(g.entry, closes, exits=[g.exit], kinds=("n",))
+        if _delegates_to_unparse(h):
+            ctx.ok("own-parens:" + nm, db.where(h), "delegates")
+        else:
+            ctx.check(bool(opens) and bool(closes) and g1 and g2, "own-parens:" + nm, db.where(h), "%s has a path that writes the operator form without its own parentheses (%s): the result re-associates with the surrounding operators, e.g. `(-2) ** 2` becomes `(-2 ** 2)`" % (nm, g.fmt_path(p1 or p2)), "parenthesised on every path")
     for c in LOOSE:
         h = meths.get("visit_" + c)
         if h is None:
@@ -194,7 +209,7 @@ FIND_CLASSES = {"ListComp": ["elt", "generators"], "SetComp": ["elt", "generator
                 "For": ["target", "iter", "body", "orelse"], "ExceptHandler": ["type", "body"], "Assign": ["targets", "value"]}
 
 
-@rule("C19.idents-fields", min_instances=12)
+@rule("C19.idents-fields", min_instances=12, props=["C04"])
 def idents_fields(ctx):
     """FindIdentifiers: every overriding visitor covers the node's child fields on every branch; functions and lambdas bind parameters of every kind and evaluate their defaults in the enclosing scope"""
     db = ctx.db
@@ -252,6 +267,23 @@ def idents_fields(ctx):
             ctx.ok("defaults:" + f, db.where(vf), "visited")
         else:
             ctx.violation("idents:pyparser.FindIdentifiers._visit_function#unvisited:" + f, db.where(vf), "_visit_function never visits %s (arguments.%s): a name read only there is never fetched from the context" % (what, f))
+    # defaults are visited before the parameters are bound and before the scan enters the function
+    dv = [n for n in walk_func(vf) if isinstance(n, ast.For) and ("defaults" in src(n.iter))]
+    bind = [n for n in walk_func(vf) if isinstance(n, ast.Assign) and dotted(n.targets[0]) == "self.local_ident_stack" and "union" in src(n.value)]
+    enter = [n for n in walk_func(vf) if isinstance(n, ast.Assign) and dotted(n.targets[0]) == "self.in_function" and const(n.value) is True]
+    if dv and bind and enter:
+        ctx.check(dv[0].lineno < bind[0].lineno and dv[0].lineno < enter[0].lineno, "defaults-in-enclosing-scope", db.where(dv[0]),
+                  "parameter defaults are scanned after the function's own parameters were bound: a default that reads a context name equal to a parameter name (`def f(v, sep=sep)`) is not fetched from the context", "defaults scanned before the parameters are bound")
+    # scan state saved on entry is restored from the saved value on exit
+    for attr in ("in_function", "local_ident_stack"):
+        saves = [n for n in walk_func(vf) if isinstance(n, ast.Assign) and isinstance(n.targets[0], ast.Name) and dotted(n.value) == "self." + attr]
+        stores = [n for n in walk_func(vf) if isinstance(n, ast.Assign) and dotted(n.targets[0]) == "self." + attr]
+        if not saves or len(stores) < 2:
+            ctx.violation("state:%s:not-saved" % attr, db.where(vf), "_visit_function changes self.%s without saving and restoring it" % attr)
+            continue
+        last = max(stores, key=lambda n: n.lineno)
+        ctx.check(isinstance(last.value, ast.Name) and last.value.id == saves[0].targets[0].id and last.lineno > saves[0].lineno, "state:" + attr, db.where(last),
+                  "self.%s is not restored to the value saved on entry (`%s`): after a nested function or lambda the rest of the enclosing code is scanned in the wrong scope state" % (attr, src(last)), "restored from the saved value")
     # binding statements with a declaring path
     for c, how in (("FunctionDef", "_add_declared(node.name)"), ("ClassDef", "_add_declared(node.name)"), ("Import", "_add_declared"), ("ImportFrom", "_add_declared"), ("ExceptHandler", "_add_declared(node.name)")):
         h = meths.get("visit_" + c)
